@@ -110,3 +110,25 @@ prop('C17', 'neighbour candidates are enumerated completely and in order of dist
   pe('query_shift_is_image', 'shift_equiv_image', 'T06.4 searching with the query shifted by s looks at the image shifted by -s'),
   pe('reported_shift', 'reportedShift_spec', 'T06.4/T17.3 the reported shift is absent iff zero and has components in {-w,0,w}'),
 ])
+KN = ('MVoro.Proofs.Aux20', 'MVoro.KnnProofs')
+def kn(name, orig, doc): return (name, KN[0], KN[1], orig, doc)
+SP = ('MVoro.Proofs.Aux20', 'MVoro.SphereProofs')
+def sp(name, orig, doc): return (name, SP[0], SP[1], orig, doc)
+prop('C20', 'auxiliary structures return exact nearest neighbours and enclosing spheres', ['MVoro.Proofs.Aux20'], [
+  kn('cell_lower_bound', 'minDist2_lower_bound', 'T20.1 `min_distance_squared` of a grid cell is a lower bound of the squared distance to every point inside the cell (needs the cell extent loc .. loc+width componentwise)'),
+  kn('closest_loc_in_cell', 'closestLoc_inBox', 'T20.1 `closest_loc` lies in the cell'),
+  kn('bounded_heap_insert', 'insertK_spec', 'T20.1 one insertion into the bounded heap keeps "the k smallest distances seen so far, ascending"'),
+  kn('bounded_heap_fold', 'foldl_insertK_spec', 'T20.1 scanning any list of particles leaves the k smallest distances of everything scanned'),
+  kn('skip_is_safe', 'skip_safe', 'T20.1 a cell whose lower bound exceeds the current k-th distance cannot change the heap'),
+  kn('scan_with_skip_eq_without', 'scanCell_eq_noskip', 'T20.1 hence scanning with the skip test gives the same heap as scanning every particle of the cell'),
+  kn('ring_termination_bound', 'ring_bound_3d', 'T20.1 every particle in a cell at ring distance > r is farther than dist_to_face + r * min width: the termination test is safe'),
+  kn('pinned_placement_breaks_lower_bound', 'pinned_lower_bound_fails', 'T20.1 (negative) with `c_width.x` on all axes (the pinned tree) a particle lies outside the extent of its cell and the lower bound fails'),
+  kn('pinned_placement_wrong_answer', 'pinned_knn_ne_spec', 'T20.1 (negative) concrete non-cubic box on which the pinned placement returns a wrong nearest neighbour; the componentwise placement returns the right one'),
+  sp('certificate_implies_minimal', 'minimal_of_certificate_V3', 'T20.3 a ball containing all points whose centre is a convex combination of points on its boundary is the minimal enclosing ball'),
+  sp('two_point_sphere_minimal', 'sphere2_minimal', 'T20.3 `from_two_points` is the minimal sphere containing both'),
+  sp('extend_keeps_points', 'extend_keeps_contained', 'T20.2 `extend` keeps every previously contained point'),
+  sp('extend_contains_new_point', 'extend_contains_new', 'T20.2 and contains the new one'),
+  sp('extension_loop_contains_all', 'fold_extend_contains_all', 'T20.2 the extension loop over all points ends with a sphere containing all of them'),
+  sp('epos6_contains_all', 'epos6_contains_all', 'T20.2 EPOS-6: whatever the initial guess (positive radius), the result contains every point'),
+  sp('sphere_of_spheres_step', 'sphere_of_spheres_step', 'T20.2 one extension step of the sphere-of-spheres loop contains the old bounding sphere and the new sphere'),
+])
